@@ -6,7 +6,10 @@ from checks.evalcheck import run_family
 
 def run(ctx):
     run_family(ctx, "c16", 40000, timeout=3400)
+    # random deeper programs over every operator, builtin and value kind, recorded from the real evaluator and validated by Trace_Expr
+    tr = ctx.record("prog-random", "expr", ["-mode", "prog", "-n", 30000 if ctx.thorough else 2000, "-seed", ctx.seed * 100 + 16])
+    ctx.validate("prog-random-validate", "trace/Trace_Expr.tla", "trace/Trace_Expr.cfg", tr, "expr", shards=14 if ctx.thorough else 2)
     return ctx.finish(
         rule="every dotted path of the family evaluated against the data map by the real evaluator; compared: value (Go ints and "
-             "floats as exact numbers, typed nil as null), error for !. on null and for a missing struct field; non-trivial = pinned cases",
+             "floats as exact numbers, typed nil as null), error for !. on null and for a missing struct field; plus seeded random programs (depth <= 4, all operators / builtins / value kinds) validated by the trace specification; non-trivial = pinned cases",
         assumptions=["member access on scalars, arrays, functions, times and unexported fields is unpinned (total, no panic)"])
